@@ -64,7 +64,7 @@ theorem queue_inv_init (c : QCfg) (hP : 64 ≤ c.P) : QInv c (PQState.init c) {}
   have h4 := (c.S_add hP).2
   refine ⟨BufInv_init c.S c.pages 0 h4, rfl, rfl, by simp, ?_, ?_⟩
   · refine ⟨rfl, rfl, rfl, rfl, by simp [PQState.init], by simp, by simp, rfl, rfl, rfl, Nat.le_refl _,
-      Or.inr ⟨rfl, rfl⟩⟩
+      Or.inr ⟨rfl, rfl⟩, Or.inl rfl⟩
   · exact ⟨rfl, rfl, Nat.le_refl _, Nat.le_refl _, by simp [PQState.init]⟩
 
 /-- **Refinement from related states**, for every operation list -/
